@@ -158,6 +158,54 @@ def paths_to(t, root, limit=4):
     return [p for p in out if not any(q != p and q[:len(p)] == p for q in out)][:limit]
 
 
+def designated_member_data(ctx, body, mine, RULE):
+    """Data of one designated member (the first statement) absorbed into *every* member's transcript stands for that member's own
+    data only if the batch is refused unless the members agree on it: each such datum must be a field the consistency function
+    compares between every member and the designated one.  (Otherwise a member is verified in a batch against data it is not
+    verified against alone.)"""
+    import re
+    rep = ctx.rep
+    from . import msm
+    from .common import guard_table
+    cons = msm.consistency_fn(ctx, RULE)
+    if cons is None:
+        return
+    compared = set()
+    for r in guard_table(ctx, cons):
+        if not any(c[0] == 'forall' for c in r['ctx']) or r['eff'] == 'bypass':
+            continue
+        for a in r['atoms']:
+            if a[0] == 'cmp' and a[1] == 'Eq':
+                for x, y in ((a[2], a[3]), (a[3], a[2])):
+                    m1 = re.match(r"^each\(p(\d+)\)(\.[A-Za-z0-9_.]+?)(<skip>)?$", x)
+                    m2 = re.match(r"^p(\d+)\['first'\](\.[A-Za-z0-9_.]+)$", y)
+                    if m1 and m2 and m1.group(1) == m2.group(1) and m1.group(2) == m2.group(2):
+                        compared.add(m1.group(2))
+    st_idx = [i for i in range(1, body.argc + 1) if body.local_ty(i).startswith('&[') and 'RangeStatement' in body.local_ty(i)]
+    used = {}
+    for e in mine:
+        d = e.data()
+        if d is None:
+            continue
+        for x in walk(d):
+            if x.tag == 'field':
+                c = canon(x)
+                # <the statements slice, or the chunk of it handed to the core>['first'].<path>
+                m = re.match(r"^(.+)\['first'\](\.[A-Za-z0-9_.]+)$", c)
+                if m and any(re.search(r'(^|[^A-Za-z0-9_])p%d($|[^0-9])' % i, m.group(1)) for i in st_idx) and "['first']" not in m.group(1):
+                    used.setdefault(m.group(2), e)
+    # keep the maximal paths (a.b.c, not its prefixes a.b)
+    paths = [p_ for p_ in used if not any(q != p_ and q.startswith(p_ + '.') for q in used)]
+    for p_ in sorted(paths):
+        ok = any(p_ == c_ or p_.startswith(c_ + '.') for c_ in compared)
+        e = used[p_]
+        rep.check(ok, RULE, '%s/verifier/designated%s' % (RULE, p_),
+                  'the first statement\'s `%s`, absorbed for every member, is compared between every member and the first by the consistency function' % p_[1:],
+                  'every member\'s transcript absorbs the first statement\'s `%s`, which the consistency function does not compare across members (compared: %s): a member is verified in a batch against data it is not verified against alone'
+                  % (p_[1:], sorted(compared)), ctx.where(e.body, e.bb))
+    rep.floor(RULE, 'fields compared across members by the consistency function', len(compared), 4)
+
+
 def event_classes(ctx, body, role):
     """{id(event): datum class} for the absorptions on the caller's transcript (shared with R-C19-1: which datum goes under which label)"""
     mine, other, allev = wire.proof_events(ctx, body, 'R-C04-1')
@@ -280,6 +328,7 @@ def run(ctx):
                             bad_al.append((e, rs, pre))
         if role == 'verifier':
             rep.floor('R-C04-3', 'member-data absorptions compared for alignment', naligned, 8)
+            designated_member_data(ctx, body, mine, 'R-C04-3')
         rep.check(not bad_al, 'R-C04-3', 'R-C04-3/%s/aligned' % role, 'every absorption acts on the transcript at the position of the member it absorbs (%d compared)' % naligned,
                   'transcript and member are reached differently: %s' % [((e.label() or b'?').decode('latin1'), r, p) for e, r, p in bad_al[:2]],
                   ctx.where(bad_al[0][0].body, bad_al[0][0].bb) if bad_al else ctx.where(body))
